@@ -137,11 +137,15 @@ func H_C13_snapshots_and_aliasing() {
 		default:
 			l.Delete(0)
 		}
+		s3 := l.Slice() // a later export must not disturb an earlier one
+		if len(s3) > 0 {
+			s3[0] = 77
+		}
 		ok = len(s2) == 3
 		for i := 0; i < 3 && i < len(s2); i++ {
 			ok = verifAnd(ok, hSameShallow(hSnapValue(before.elem[i].kind, s2[i], false), before.elem[i]))
 		}
-		verifAssert(ok, "modifying the list does not change a slice returned earlier")
+		verifAssert(ok, "modifying the list (and exporting again) does not change a slice returned earlier")
 		// native export at depth 2 is fresh as well
 		l2 := NewList(inner, io)
 		ns := l2.NativeSlice()
@@ -181,12 +185,14 @@ func H_C13_snapshots_and_aliasing() {
 		default:
 			o.Set("n", 1)
 		}
+		d3 := o.Dict() // a later export must not disturb an earlier one
+		d3["a"] = 77
 		ok = len(d2) == 3
 		for i, k := range keys {
 			v, has := d2[k]
 			ok = verifAnd(ok && has, hSameShallow(hSnapValue(before[i].kind, v, false), before[i]))
 		}
-		verifAssert(ok, "modifying the object does not change a map returned earlier")
+		verifAssert(ok, "modifying the object (and exporting again) does not change a map returned earlier")
 		o2 := NewObject("b", inner, "c", io)
 		nd := o2.NativeDict()
 		nd["b"].([]any)[0] = nondetInt()
